@@ -220,12 +220,22 @@ impl Degree {
 
     pub fn complement(&self) -> Degree {
         use Degree::*;
-        Quadratic
+        // The complement of a non-constant expression is not a polynomial.
+        if *self == Constant {
+            Constant
+        } else {
+            NonQuadratic
+        }
     }
 
     pub fn bool_not(&self) -> Degree {
         use Degree::*;
-        Quadratic
+        // The negation of a non-constant expression is not a polynomial.
+        if *self == Constant {
+            Constant
+        } else {
+            NonQuadratic
+        }
     }
 }
 
